@@ -15,8 +15,6 @@ structure MonthOK (P : PyChars) : Prop where
   asciiDigit : ∀ c : Char, c.toNat < 128 → P.isDigit c = c.isDigit
   /-- digit characters are caseless -/
   digitCaseless : ∀ c : Char, P.isDigit c = true → P.lowerC c = [c]
-  /-- a decimal value is a single decimal digit -/
-  decBound : ∀ (c : Char) (d : Nat), P.decVal c = some d → d ≤ 9
 
 theorem asciiChars_ok : MonthOK asciiChars where
   asciiLower := by intro c _; rfl
@@ -38,17 +36,6 @@ theorem asciiChars_ok : MonthOK asciiChars where
         exact absurd this (by decide)
       exact dif_neg h1
     rw [this]
-  decBound := by
-    intro c d h
-    simp only [asciiChars] at h
-    split at h
-    · rename_i hd
-      injection h with h
-      unfold Char.isDigit at hd
-      simp only [Bool.and_eq_true, decide_eq_true_eq] at hd
-      have : c.toNat ≤ 57 := hd.2
-      omega
-    · cases h
 
 variable {P : PyChars} {D : Nat}
 
@@ -177,50 +164,6 @@ theorem lt_of_abbr {i : Nat} {a : Str} (h : abbrs[i]? = some a) : i < 12 := by
 theorem lt_of_lfull {i : Nat} {a : Str} (h : lowerFullsC[i]? = some a) : i < 12 := by
   have := (List.getElem?_eq_some_iff.mp h).1; rwa [len_lowerFullsC] at this
 
-/-! ### digits -/
-
-theorem decValue_go_lt (hP : MonthOK P) (s : Str) : ∀ (a k n : Nat), a < 10 ^ k →
-    s.foldl (fun acc c => match acc, P.decVal c with
-      | some a, some d => some (a * 10 + d)
-      | _, _ => none) (some a) = some n → n < 10 ^ (k + s.length) := by
-  induction s with
-  | nil => intro a k n ha h; simp at h; subst h; simpa using ha
-  | cons c r ih =>
-    intro a k n ha h
-    simp only [List.foldl_cons] at h
-    cases hd : P.decVal c with
-    | none =>
-      rw [hd] at h
-      have : ∀ (r : Str), r.foldl (fun acc c => match acc, P.decVal c with
-          | some a, some d => some (a * 10 + d)
-          | _, _ => none) (none : Option Nat) = none := by
-        intro r; induction r with
-        | nil => rfl
-        | cons x t iht => simpa using iht
-      simp only [this] at h; cases h
-    | some d =>
-      rw [hd] at h
-      have hd9 := hP.decBound c d hd
-      have hlt : a * 10 + d < 10 ^ (k + 1) := by
-        rw [Nat.pow_succ]; omega
-      have := ih (a * 10 + d) (k + 1) n hlt h
-      simpa [Nat.add_assoc, Nat.add_comm 1] using this
-
-theorem pyInt_lt (hP : MonthOK P) {s : Str} {n : Nat} (h : pyInt P D s = some n) : D = 0 ∨ n < 10 ^ D := by
-  unfold pyInt at h
-  split at h
-  · cases h
-  · rename_i hnot
-    by_cases hD : D = 0
-    · exact Or.inl hD
-    · right
-      have hlen : s.length ≤ D := by
-        have : ¬ D < s.length := fun hh => hnot ⟨Nat.pos_of_ne_zero hD, hh⟩
-        omega
-      have := decValue_go_lt hP s 0 0 n (by simp) h
-      simp only [Nat.zero_add] at this
-      exact Nat.lt_of_lt_of_le this (Nat.pow_le_pow_right (by decide) hlen)
-
 /-! ### spellings of a month -/
 
 /-- `v` is an unenclosed spelling of month `m` (1-based): the int; a string with `isdigit()` that
@@ -232,21 +175,12 @@ inductive Spelling (P : PyChars) (D : Nat) (m : Nat) : Val → Prop
   | abbr (s : Str) : abbrs[m - 1]? = some (lower P s) → Spelling P D m (.str s)
   | full (s : Str) : (lowerFulls P)[m - 1]? = some (lower P s) → Spelling P D m (.str s)
 
-/-- an int-typed value can be formatted by an f-string (at most `D` decimal digits, or no limit) -/
-def Fits (D : Nat) (v : Val) : Prop := ∀ i, v = .int i → D = 0 ∨ i.natAbs < 10 ^ D
-
 /-- what month `m` looks like after each middleware -/
 def canon (k : Kind) (m : Nat) : Option Val :=
   match k with
   | .toInt => some (.int (m : Int))
   | .toAbbr => (abbrs[m - 1]?).map .str
   | .toLong => (fulls[m - 1]?).map .str
-
-theorem fmtInt_ok {i : Int} (h : D = 0 ∨ i.natAbs < 10 ^ D) : fmtInt D i = .ok (intToStr i) := by
-  unfold fmtInt
-  rw [if_neg]
-  rintro ⟨h1, h2⟩
-  rcases h with h | h <;> omega
 
 theorem digitsToInt_int (i : Int) : digitsToInt P D (.int i) = .int i := rfl
 
@@ -329,9 +263,9 @@ theorem abbr_int_in {i : Int} (h1 : 1 ≤ i) (h2 : i ≤ 12) :
   have ha2 : abbrs[i.toNat - 1]? = some a := by rw [← ha]; congr 1; omega
   simp [resolveVal, resolve, resolveAbbr, digitsToInt_int, this, ha2]
 
-theorem abbr_int_out {i : Int} (h : i < 1 ∨ i > 12) (hf : D = 0 ∨ i.natAbs < 10 ^ D) :
+theorem abbr_int_out {i : Int} (h : i < 1 ∨ i > 12) :
     resolveVal P D .toAbbr (.int i) = .ok (.int i) := by
-  simp [resolveVal, resolve, resolveAbbr, digitsToInt_int, h, msgUnknown, fmtInt_ok hf]
+  simp [resolveVal, resolve, resolveAbbr, digitsToInt_int, h]
 
 theorem abbr_digits_in {s : Str} {n : Nat} (h1 : isDigitStr P s = true) (hp : pyInt P D s = some n)
     (hr1 : 1 ≤ n) (hr2 : n ≤ 12) :
@@ -351,9 +285,7 @@ theorem abbr_digits_out (hP : MonthOK P) {s : Str} (h1 : isDigitStr P s = true)
   | some n =>
     have hr := hp n hq
     have : ((n : Int) < 1 ∨ (n : Int) > 12) := by omega
-    have hfit := pyInt_lt hP hq
-    have hfit' : D = 0 ∨ (n : Int).natAbs < 10 ^ D := by simpa using hfit
-    simp [resolveVal, resolve, resolveAbbr, digitsToInt_digits h1 hq, this, msgUnknown, fmtInt_ok hfit']
+    simp [resolveVal, resolve, resolveAbbr, digitsToInt_digits h1 hq, this]
 
 theorem abbr_abbr (hP : MonthOK P) {s : Str} {i : Nat} (h : abbrs[i]? = some (lower P s)) :
     resolveVal P D .toAbbr (.str s) = .ok (.str (lower P s)) := by
@@ -406,25 +338,25 @@ theorem long_int_in {i : Int} (h1 : 1 ≤ i) (h2 : i ≤ 12) :
   have ha2 : fulls[i.toNat - 1]? = some a := by rw [← ha]; congr 1; omega
   simp [resolveVal, resolve, resolveLong, digitsToInt_int, this, ha2]
 
-theorem long_int_out {i : Int} (h : i < 1 ∨ i > 12) (hf : D = 0 ∨ i.natAbs < 10 ^ D) :
+theorem long_int_out {i : Int} (h : i < 1 ∨ i > 12) :
     resolveVal P D .toLong (.int i) = .ok (.int i) := by
-  simp [resolveVal, resolve, resolveLong, digitsToInt_int, h, msgUnknown, fmtInt_ok hf]
+  simp [resolveVal, resolve, resolveLong, digitsToInt_int, h]
 
-/-- an int with more than `D` digits cannot be formatted: the f-string of the "unknown month" message raises -/
-theorem long_int_raises {n : Nat} (h12 : 12 < n) (hD : 0 < D) (hn : 10 ^ D ≤ n) :
-    resolve P D .toLong (.int (n : Int)) = .error .valueError := by
-  have h1 : ((n : Int) < 1 ∨ (n : Int) > 12) := by omega
-  have h2 : fmtInt D (n : Int) = .error .valueError := by
-    unfold fmtInt
-    rw [if_pos]
-    exact ⟨hD, by simpa using hn⟩
-  simp [resolve, resolveLong, digitsToInt_int, h1, msgUnknown, h2]
+/-- an int that `str()` refuses to print is shown by the placeholder text -/
+theorem fmtInt_huge {i : Int} (hD : 0 < D) (hi : 10 ^ D ≤ i.natAbs) : fmtInt D i = tooManyDigits := by
+  unfold fmtInt
+  rw [if_pos ⟨hD, hi⟩]
 
-theorem entry_int_raises {n : Nat} (h12 : 12 < n) (hD : 0 < D) (hn : 10 ^ D ≤ n) :
-    transformEntry P D .toLong
-      { ty := [], key := [], fields := [⟨monthKey, .int (n : Int), 0⟩], line := 0, raw := [] } = .error .valueError := by
-  have := long_int_raises (P := P) h12 hD hn
-  simp [transformEntry, lastMonth, this]
+/-- ... and the month middlewares answer with the "unknown month" message built from it -/
+theorem resolve_huge (k : Kind) {i : Int} (hD : 0 < D) (hi : 10 ^ D ≤ i.natAbs) (h12 : 12 < i.natAbs) :
+    resolve P D k (.int i) = .ok (.int i, match k with
+      | .toInt => msgUnchanged
+      | _ => msgUnknownPrefix ++ tooManyDigits) := by
+  have h1 : i < 1 ∨ i > 12 := by omega
+  cases k with
+  | toInt => simp [resolve, resolveInt]
+  | toAbbr => simp [resolve, resolveAbbr, digitsToInt_int, h1, msgUnknown, fmtInt_huge hD hi]
+  | toLong => simp [resolve, resolveLong, digitsToInt_int, h1, msgUnknown, fmtInt_huge hD hi]
 
 theorem long_digits_in {s : Str} {n : Nat} (h1 : isDigitStr P s = true) (hp : pyInt P D s = some n)
     (hr1 : 1 ≤ n) (hr2 : n ≤ 12) :
@@ -444,9 +376,7 @@ theorem long_digits_out (hP : MonthOK P) {s : Str} (h1 : isDigitStr P s = true)
   | some n =>
     have hr := hp n hq
     have : ((n : Int) < 1 ∨ (n : Int) > 12) := by omega
-    have hfit := pyInt_lt hP hq
-    have hfit' : D = 0 ∨ (n : Int).natAbs < 10 ^ D := by simpa using hfit
-    simp [resolveVal, resolve, resolveLong, digitsToInt_digits h1 hq, this, msgUnknown, fmtInt_ok hfit']
+    simp [resolveVal, resolve, resolveLong, digitsToInt_digits h1 hq, this]
 
 theorem long_abbr (hP : MonthOK P) {s : Str} {i : Nat} (h : abbrs[i]? = some (lower P s)) :
     ∃ f, fulls[i]? = some f ∧ resolveVal P D .toLong (.str s) = .ok (.str f) := by
